@@ -375,6 +375,13 @@ func c12Config(c *Ctx, idx int) {
 			for j := 0; j < 25; j++ {
 				q := fmt.Sprintf("SELECT * FROM ks1.fresh_%d_%d WHERE k = ?", idx, j)
 				st := int16(1000 + 2*j)
+				if j%3 == 1 {
+					// the driver flow after a proxy restart: EXECUTE of an id the proxy has not seen prepared (answered
+					// UNPREPARED), then PREPARE, then EXECUTE again on the same connection
+					ex0 := &message.Execute{QueryId: fakecass.PreparedID("", q), Options: &message.QueryOptions{Consistency: cons, PositionalValues: []*primitive.Value{primitive.NewValue([]byte("early"))}}}
+					_, _ = cl.CallF(frame.NewFrame(primitive.ProtocolVersion4, int16(3000+j), ex0), 10*time.Second)
+					r.Obs("executes_before_prepare", 1)
+				}
 				pf, err := cl.Call(st, &message.Prepare{Query: q}, 10*time.Second)
 				if err != nil || pf.OpCode != primitive.OpCodeResult {
 					r.Inconc("c12: fresh PREPARE failed")
